@@ -52,7 +52,7 @@ fn segmentation_scenario(kind: Kind, hello_cuts: &[usize], replies: &[Vec<u8>], 
             steps.push(Step::SleepMs(SILENCE_MS));
         }
     }
-    Scenario { kind, steps, requests: replies.len(), extra_request: false, label, bad_credentials: false, password: crate::rsim::SSH_PASSWORD.to_string() }
+    Scenario { kind, steps, requests: replies.len(), extra_request: false, label, bad_credentials: false, password: crate::rsim::SSH_PASSWORD.to_string(), big_request: 0 }
 }
 
 fn oracle_c06(sc: &Scenario, o: &Outcome) -> Verdict {
@@ -337,6 +337,7 @@ fn disconnect_scenario(kind: Kind, point: Point, outstanding: usize, close: Clos
         label: format!("{} at {point:?}, {requests} outstanding", close_name(kind, close)),
         bad_credentials: false,
         password: crate::rsim::SSH_PASSWORD.to_string(),
+        big_request: 0,
     }
 }
 
